@@ -7,7 +7,7 @@ through the real TransactionEncode -> text -> TransactionDecode -> TransactionRe
 through a whole Experiment.run with an evaluator yielding exactly those rows and components whose params
 are those values: without a file, with a plain file, with a .gz file, Result.from_file, and a second run
 restoring from the file - all five Results must be equal to the expectation and to each other."""
-import os, json, math, random
+import os, json, math, random, collections
 from .. import tlc, tracecheck
 
 FINISH = dict(level="model_checking",
@@ -119,18 +119,24 @@ def run(ctx):
     ctx.sample(cases[len(cases) // 3], limit=1)
     ctx.exhaustive = True
     # ---- every case through the real codec ----
+    ncodec = 0
     for c in cases:
         exp = expect_rows(c)
         ctx.case(json.dumps(c["rows"], sort_keys=True))
         # a row is a mapping: the order in which an evaluator happened to insert its keys is not part of its meaning,
         # so every case is replayed with the spec's key order and with each row's keys rotated by its position
-        for order in ("as-listed", "rotated"):
+        ncodec += 1
+        for order in ("as-listed", "rotated") + (("defaulting-mapping",) if ncodec % 3 == 0 else ()):
             rows = []
             for ri, pairs in enumerate(c["rows"]):
                 ps = list(pairs)
                 if order == "rotated" and ps: k = (ri + 1) % len(ps); ps = ps[k:] + ps[:k]
-                rows.append({to_py(k): to_py(v) for k, v in ps})
-            sig = "codec" if order == "as-listed" else "codec:key-order"
+                row = {to_py(k): to_py(v) for k, v in ps}
+                # a row may be any mapping, e.g. a defaultdict / Counter whose [] invents a value for a key it does not have:
+                # a field the row does not have is still ABSENT
+                if order == "defaulting-mapping": row = collections.defaultdict(int, row)
+                rows.append(row)
+            sig = {"as-listed": "codec", "rotated": "codec:key-order", "defaulting-mapping": "codec:defaulting-mapping"}[order]
             try:
                 lines = list(TransactionEncode(None).filter([["T0", {}], ["T4", (0, 0, 0), rows]]))
                 res = TransactionResult().filter(TransactionDecode().filter(lines))
